@@ -2,23 +2,17 @@ use std::io;
 use std::mem;
 
 use bytes::{BufMut, Bytes, BytesMut};
-use nom::{self, Needed};
 use tokio_util::codec::{Decoder, Encoder};
 
 use imap_proto::types::{Request, RequestId, Response};
 
 #[derive(Default)]
-pub struct ImapCodec {
-    decode_need_message_bytes: usize,
-}
+pub struct ImapCodec {}
 
 impl Decoder for ImapCodec {
     type Item = ResponseData;
     type Error = io::Error;
     fn decode(&mut self, buf: &mut BytesMut) -> Result<Option<Self::Item>, io::Error> {
-        if self.decode_need_message_bytes > buf.len() {
-            return Ok(None);
-        }
         let (response, rsp_len) = match imap_proto::Response::from_bytes(buf) {
             Ok((remaining, response)) => {
                 // This SHOULD be acceptable/safe: BytesMut storage memory is
@@ -28,10 +22,6 @@ impl Decoder for ImapCodec {
                 let response =
                     unsafe { mem::transmute::<Response<'_>, Response<'static>>(response) };
                 (response, buf.len() - remaining.len())
-            }
-            Err(nom::Err::Incomplete(Needed::Size(min))) => {
-                self.decode_need_message_bytes = min.get();
-                return Ok(None);
             }
             Err(nom::Err::Incomplete(_)) => {
                 return Ok(None);
@@ -45,7 +35,6 @@ impl Decoder for ImapCodec {
             }
         };
         let raw = buf.split_to(rsp_len).freeze();
-        self.decode_need_message_bytes = 0;
         Ok(Some(ResponseData { raw, response }))
     }
 }
